@@ -586,6 +586,41 @@ func init() {
 		l.p("/-- `GetJournals`' visitor calls `Release` on the partition it is visiting (before it aborts on a failed")
 		l.p("`Journals.GetOrCreate`): the repair of F15 -/")
 		l.p("def getJournalsVisitorReleasesFailed : Bool := %s", leanBool(visitorReleases))
+		// ---- matched release inside one function (callers that acquire by id and give back before they go on) ----------
+		leaks := []string{}
+		for _, t := range []struct{ file, recv, fn string }{
+			{"pkg/pipe/ppipe.go", "ppipe", "catchUp"},
+			{"pkg/partition/partition.go", "Service", "truncateGlobally"},
+			{"pkg/partition/partition.go", "Service", "cleanupTsIndex"},
+			{"pkg/partition/tmirebuilder.go", "tmirebuilder", "serve"},
+		} {
+			fd := funcDecl(parseFile(t.file), t.recv, t.fn)
+			if fd == nil || fd.Body == nil {
+				problem("C14: %s: %s.%s not found", t.file, t.recv, t.fn)
+				continue
+			}
+			if !c14IsAcquire(fd.Body) {
+				acq := false
+				ast.Inspect(fd.Body, func(n ast.Node) bool {
+					if fl, ok := n.(*ast.FuncLit); ok && c14IsAcquire(fl.Body) {
+						acq = true
+					}
+					return true
+				})
+				if !acq {
+					problem("C14: %s.%s no longer acquires a partition by id (GetJournal / GetJournalTags(…, true)): the caller program that mirrors it must be looked at", t.recv, t.fn)
+				}
+			}
+			leaks = append(leaks, c14MatchedRelease(t.recv+"."+t.fn, fd)...)
+		}
+		l.p("/-- ways out of `ppipe.catchUp`, `Service.truncateGlobally`, `Service.cleanupTsIndex`, `tmirebuilder.serve` (return, continue /")
+		l.p("break of the loop the acquisition stands in, end of that loop body or of the function, panic) that are reached after a")
+		l.p("successful `GetJournal` / `GetJournalTags(…, true)` without a `Release` on the way (a deferred one counts) -/")
+		q := []string{}
+		for _, u := range leaks {
+			q = append(q, leanStr(u))
+		}
+		l.p("def acquiredAtExit : List String := [%s]", strings.Join(q, ", "))
 		l.p("/-- `LockExclusively` succeeds only when `td.readers ==` this value -/")
 		l.p("def lockExclusivelyReaders : Int := %d", lockReaders)
 		l.write()
